@@ -2,6 +2,8 @@
 package gosym
 
 import (
+	"crypto/md5"
+	"encoding/binary"
 	"fmt"
 	"math/big"
 	"sort"
@@ -71,12 +73,15 @@ type Term struct {
 	Name string   // variable name
 	Hi   int
 	Lo   int
+	key  *[16]byte // structural hash (lazily computed)
 }
 
 var (
 	TTrue  = &Term{Op: OpConst, W: WBool, B: true}
 	TFalse = &Term{Op: OpConst, W: WBool, B: false}
 )
+
+func init() { TTrue.Key(); TFalse.Key() }
 
 func mask(w int) uint64 {
 	if w >= 64 {
@@ -112,6 +117,36 @@ func MkRealF(f float64) *Term {
 func MkVar(name string, w int) *Term { return &Term{Op: OpVar, W: w, Name: name} }
 
 func (t *Term) IsConst() bool { return t.Op == OpConst }
+
+// Key is a structural hash of the term: structurally equal terms have equal keys.
+func (t *Term) Key() [16]byte {
+	if t.key != nil {
+		return *t.key
+	}
+	h := md5.New()
+	var hdr [24]byte
+	binary.LittleEndian.PutUint32(hdr[0:], uint32(t.Op))
+	binary.LittleEndian.PutUint32(hdr[4:], uint32(int32(t.W)))
+	binary.LittleEndian.PutUint64(hdr[8:], t.BV)
+	binary.LittleEndian.PutUint32(hdr[16:], uint32(int32(t.Hi)))
+	binary.LittleEndian.PutUint32(hdr[20:], uint32(int32(t.Lo)))
+	h.Write(hdr[:])
+	if t.B {
+		h.Write([]byte{1})
+	}
+	if t.Rat != nil {
+		h.Write([]byte(t.Rat.String()))
+	}
+	h.Write([]byte(t.Name))
+	for _, a := range t.Args {
+		k := a.Key()
+		h.Write(k[:])
+	}
+	var out [16]byte
+	copy(out[:], h.Sum(nil))
+	t.key = &out
+	return out
+}
 
 // Signed value of a constant bit-vector.
 func (t *Term) SInt() int64 {
